@@ -113,3 +113,23 @@ EXPLANATION += (" Domain entry: RidgeRegression::fit refuses no design with n > 
                 "cols + c is evaluated as an integer interval; n = p + 1 must pass for every normalisation setting). QR path: "
                 "the Householder norm in qr_mut takes the sign of the diagonal entry (C01's rule).")
 TECHNIQUE += "; accept-side guard rule with affine bounds; sign-source rule for the Householder norm"
+
+
+# ------------------------------------------------------------------ generic: no magnitude is compared with a signed raw element
+_run_pre_magnitude = run
+
+
+def run(ck, prog):
+    _run_pre_magnitude(ck, prog)
+    from sa import magnitude
+    magnitude.run_rule(ck, prog, set(DIMENSION_FILES))
+
+
+# ------------------------------------------------------------------ generic: backward strided scans (`j -= step`) continue exactly while j >= step
+_run_pre_subguard = run
+
+
+def run(ck, prog):
+    _run_pre_subguard(ck, prog)
+    from sa import subguard
+    subguard.run_rule(ck, prog, set(DIMENSION_FILES))
